@@ -302,4 +302,10 @@ def compute_meta(func, _dtype, *args, **kwargs):
         if np.isscalar(meta):
             meta = np.array(meta)
 
+        # ``np.ma.masked`` (an op over a fully-masked 0-d meta) is a read-only
+        # singleton that cannot be tokenized (reading ``fill_value`` raises), and
+        # metas become expression operands (``FromGraph`` after ``persist``).
+        if isinstance(meta, np.ma.core.MaskedConstant):
+            meta = np.ma.array(meta, ndmin=0)
+
         return meta
